@@ -146,6 +146,11 @@ func main() {
 			// the dump may go through JSON
 			if variant%2 == 1 {
 				b, err := json.Marshal(dump)
+				if variant == 3 {
+					// JSON may be formatted: whitespace between the tokens of an entity is as good as none
+					b, err = json.MarshalIndent(dump, " ", "\t")
+					res.Counters["dumps-through-indented-json"]++
+				}
 				if err != nil {
 					msgs = append(msgs, "json.Marshal(EntityDump): "+err.Error())
 				}
